@@ -232,7 +232,7 @@ def _wf_clauses(h: Heap, T, tag: str | None = None) -> dict:
     c["S6r"] = Implies(ch(root) != LNONE, h.llen(ch(root)) >= 0)
     # I1: id index exact + injective  (mem is *defined* through the index, so only one direction + key facts)
     c["I1"] = And(
-        ForAll([k], Implies(h.ddom(nbi, k), And(h.dref(nbi, k) != NONE, h._tree(h.dref(nbi, k)) == T, h._node_id(h.dref(nbi, k)) == k, v_truthy(k))), patterns=[h.dref(nbi, k)]),
+        ForAll([k], Implies(h.ddom(nbi, k), And(h.dref(nbi, k) != NONE, h._tree(h.dref(nbi, k)) == T, h._node_id(h.dref(nbi, k)) == k, v_truthy(k))), patterns=[h.dref(nbi, k), h.ddom(nbi, k)]),
         h.dcard(nbi) >= 0,
     )
     # I2: clone lists exact (cpos = ghost position inside the clone list)
